@@ -250,7 +250,10 @@ REACTIONS = [
     (['[C:1]=[O:2]', '[N;D1:3]'], ['[A:1]=[A:3]', '[O:2]'], 'two products'),
     (['[C:1][Br:9]', '[N;D1:2]'], ['[A:1][A:2][C:7](=[O:8])'], 'new atoms in product'),
 ]
-RMOLS = [('CC(=O)O', 'NCC'), ('CCBr', 'OCC'), ('CC=O', 'NC'), ('OC(=O)CC(=O)O', 'NCCN'), ('BrCCBr', 'OCCO'), ('CCBr', 'NCC')]
+RMOLS = [('CC(=O)O', 'NCC'), ('CCBr', 'OCC'), ('CC=O', 'NC'), ('OC(=O)CC(=O)O', 'NCCN'), ('BrCCBr', 'OCCO'), ('CCBr', 'NCC'),
+         # several non-equivalent sites on both sides, different numbers of sites (2x3, 3x2, 2x4, 3x4)
+         ('OC(=O)CCC(C)C(O)=O', 'NCC(N)CCCN'), ('OC(=O)CC(C(O)=O)CCC(C)C(O)=O', 'NCC(C)CCN'), ('BrCC(C)CCBr', 'OCC(O)CCCO'), ('BrCC(Br)CCCBr', 'OCC(C)CCO'),
+         ('CC(=O)CC=O', 'NCC(N)CCCN'), ('OC(=O)CCC(C)C(O)=O', 'NCC(N)CC(C)(N)CCCN'), ('BrCC(Br)CCCBr', 'NCC(N)CC(C)(N)CCCN')]
 SPECT = ['CCCCCC', 'c1ccccc1', 'O', 'ClCCl']
 
 
@@ -836,7 +839,7 @@ def plan(tier, seed):
             Stage('frame condition on aromatic molecules', run_aromatic_frame, [0], '4 side-chain templates x 14 aromatic N-H heterocycles in aromatic form x 2 numberings x aromatic post-processing on/off: unnamed atoms keep hydrogens, ring bonds keep orders'),
             Stage('exhaustive mode, single pattern', run_exhaustive_single, [0], 'halide -> alcohol, one_shot=False, on 8 input tuples x every order of the inputs: product sets = non-empty subsets of the reaction sites'),
             Stage('stereo label in the replacement', run_stereo_replacement, [0], '5 replacements (query and molecule; new centres in rings and chains) x 2-4 spellings x Transformer / Reactor: one stereoisomer per replacement'),
-            Stage('synthetic multi-reactant Reactor vs edit model', run_reactor_model, [0], '4 reactions x 12 ordered reactant pairs x spectator x automorphism filter: set of reactions = edit model over every combination of matches'),
+            Stage('synthetic multi-reactant Reactor vs edit model', run_reactor_model, [0], '4 reactions x %d ordered reactant pairs (1-4 non-equivalent sites per reactant, equal and different site counts) x spectator x automorphism filter: set of reactions = edit model over every combination of matches' % (2 * len(RMOLS))),
             Stage('prepared reaction collections vs edit model', run_prepared, [('fwd', n, tier) for n in FWD_NAMES] + [('retro', n, tier) for n in RETRO_NAMES],
                   '9 forward + 5 retro collections (53 reactors) x every tuple of pool molecules matching the patterns: reactions = edit model over every combination of matches; '
                   'colliding numbers / reversed order / spectator give the same set; collection call = union of its reactors')]
